@@ -274,11 +274,24 @@ namespace Spec
 
 def isRemovalEntry (e : Entry) : Bool := isTerminateEntry e || isDeleteEntry e
 
-/-- First batch of a removal journal: the leading terminates and the deletes that follow them. -/
-def firstBatch (r : Journal) : Journal × Journal :=
-  let terms := r.takeWhile isTerminateEntry
-  let rest := r.dropWhile isTerminateEntry
-  (terms ++ rest.takeWhile isDeleteEntry, rest.dropWhile isDeleteEntry)
+/-- First batch of a removal journal, guided by the expected candidates `fc` of that batch: the leading
+    terminates that follow `fc`'s expected calls (cut after the first failed one), then — only if the
+    whole batch was accepted — the deletes that follow `fc`'s names. -/
+def firstBatch (g : PGroup) (fc : List Node) (r : Journal) : Journal × Journal :=
+  let rec matchTerms (cs : List Node) (es : List Entry) : List Entry :=
+    match cs, es with
+    | c :: cs', e :: es' =>
+      if e.call == termCall g c then (if e.ok then e :: matchTerms cs' es' else [e]) else []
+    | _, _ => []
+  let rec matchDels (cs : List Node) (es : List Entry) : List Entry :=
+    match cs, es with
+    | c :: cs', e :: es' =>
+      if e.call == Call.deleteNode c.name then (if e.ok then e :: matchDels cs' es' else [e]) else []
+    | _, _ => []
+  let t1 := matchTerms fc r
+  let rest := r.drop t1.length
+  let d1 := if t1.length == fc.length && t1.all (·.ok) then matchDels fc rest else []
+  (t1 ++ d1, rest.drop d1.length)
 
 def okDecs (j : Journal) : Nat := j.countP isOkDecTerminate
 
@@ -299,7 +312,7 @@ def C19.scanBad (c : Ctx) (j : Journal) (fatalHere : Bool) : List String :=
   let try2 (b1 b2 : Journal) : Bool :=
     let g2 : PGroup := { c.g with asg := { c.g.asg with desired := c.g.asg.desired - okDecs b1 } }
     C19.batchHolds c.g fc b1 && C19.batchHolds g2 rc b2
-  let (p1, p2) := firstBatch r
+  let (p1, p2) := firstBatch c.g fc r
   let decr := r.all (fun e => match e.call with | .terminateInAsg _ d => d | _ => true)
   let (b1, b2) := if try2 [] r then (([] : Journal), r) else (p1, p2)
   let g2 : PGroup := { c.g with asg := { c.g.asg with desired := c.g.asg.desired - okDecs b1 } }
@@ -389,6 +402,94 @@ def C12.okEntry (c : Ctx) (e : Entry) : Bool :=
   | .build => false
 
 def C12.holds (c : Ctx) (j : Journal) : Bool := j.all (C12.okEntry c)
+
+end Spec
+end Esc
+
+namespace Esc
+namespace Spec
+
+/-! ### C07 -/
+
+def isResizeRequest (e : Entry) : Bool := match e.call with | .setDesired .. | .createFleet _ => true | _ => false
+
+/-- Newest first: no tainted node left un-attempted is strictly newer than an attempted tainted one. -/
+def C07.orderHolds (c : Ctx) (j : Journal) : Bool :=
+  let tainted := nodesOf c.dry c.st .tainted c.view.nodes
+  let attempted := getNames j
+  tainted.all (fun x => attempted.contains x.name ||
+    tainted.all (fun y => !attempted.contains y.name || !decide (y.created < x.created)))
+
+/-- No cloud increase while a tainted node was not even attempted. -/
+def C07.reuseHolds (c : Ctx) (j : Journal) : Bool :=
+  let tainted := nodesOf c.dry c.st .tainted c.view.nodes
+  !(j.any isResizeRequest) || tainted.all (fun x => (getNames j).contains x.name)
+
+/-- Amounts: walking the journal with the cloud group's current desired size and the number of
+    accepted untaints so far, every increase asks for at least 1 and at most `want − untaints`, on top
+    of the current desired size. -/
+def C07.amountGo (view : View) (want : Int) : Int → Nat → Journal → Bool
+  | _, _, [] => true
+  | cur, u, e :: es =>
+    (match e.call with
+     | .setDesired _ v => decide (1 ≤ v - cur) && decide (v - cur ≤ want - u)
+     | .createFleet r => decide (1 ≤ r.total) && decide (r.total ≤ want - u)
+     | _ => true) &&
+    C07.amountGo view want (if isOkDecTerminate e then cur - 1 else cur) (if isTaintRemove view e && e.ok then u + 1 else u) es
+
+def C07.amountHolds (c : Ctx) (want : Int) (j : Journal) : Bool := C07.amountGo c.view want c.g.asg.desired 0 j
+
+end Spec
+end Esc
+
+namespace Esc
+namespace Spec
+
+/-! ### C06 — band oracle on exact rationals -/
+
+/-- Exact utilisation `max(100·Rcpu/Ccpu, 100·Rmem/Cmem)` of the view (none if a capacity is zero). -/
+def exactUtil (c : Ctx) : Option Rat :=
+  let unt := nodesOf c.dry c.st .untainted c.view.nodes
+  let pu := podsUsage c.view.pods
+  let nc := nodesCapacity unt c.view.pods
+  if nc.total.cpu ≤ 0 ∨ nc.total.mem ≤ 0 then none
+  else some (max ((100 * pu.total.cpu : Int) / (nc.total.cpu : Rat)) ((100 * pu.total.mem : Int) / (nc.total.mem : Rat)))
+
+/-- Is `u` clearly (by a relative margin of 2⁻⁴⁰) below / above the integer threshold `t`? -/
+def clearlyBelow (u : Rat) (t : Int) : Bool := u * (1 + 1 / (2 ^ 40 : Nat)) < (t : Rat)
+def clearlyAbove (u : Rat) (t : Int) : Bool := (t : Rat) * (1 + 1 / (2 ^ 40 : Nat)) < u
+
+/-- Failures of the band rules for one observed group scan (empty = fine). Only judged when the group
+    is outside dry mode, unlocked, within its node-count bounds, at or above its minimum of untainted
+    nodes, and neither trigger is configured. -/
+def C06.bad (c : Ctx) (j : Journal) : List String :=
+  let unt := nodesOf c.dry c.st .untainted c.view.nodes
+  let n : Int := c.view.nodes.length
+  if c.dry || lockHeld c.st.lock c.cfg.coolNs c.nowReal || n < c.st.minEff || n > c.st.maxEff ||
+     (unt.length : Int) < c.st.minEff || c.cfg.scaleOnStarve || c.cfg.maxAgeNs > 0 then []
+  else
+    match exactUtil c with
+    | none => []
+    | some u =>
+      let adds := (j.filter (isTaintAdd c.view)).length
+      let untaints := (j.filter (fun e => isTaintRemove c.view e && e.ok)).length
+      let resizes := (j.filter isResizeRequest).length
+      let failedTaintWrites := (j.filter (fun e => !e.ok && (match e.call with | .getNode _ | .updateNode _ => true | _ => false))).length
+      let gets := (getNames j).length
+      let room : Int := (unt.length : Int) - c.st.minEff
+      let expect (rate : Int) : List String :=
+        let want : Int := max 0 (min rate room)
+        (if untaints != 0 || resizes != 0 then ["scale-up-actions-in-taint-band"] else []) ++
+        (if (adds : Int) > want then ["tainted-too-many"] else []) ++
+        -- with no failed write and a fresh cache (one UPDATE per GET) the count is exact
+        (if failedTaintWrites == 0 && gets == adds && (adds : Int) != want && rate ≥ 0 then ["tainted-too-few"] else [])
+      if clearlyBelow u c.cfg.lower then expect c.cfg.fast
+      else if clearlyAbove u c.cfg.lower && clearlyBelow u c.cfg.upper then expect c.cfg.slow
+      else if clearlyAbove u c.cfg.upper && clearlyBelow u c.cfg.scaleUp then
+        (if adds != 0 || untaints != 0 || resizes != 0 then ["action-in-idle-band"] else [])
+      else if clearlyAbove u c.cfg.scaleUp then
+        (if adds != 0 then ["taint-above-scale-up-threshold"] else [])
+      else []
 
 end Spec
 end Esc
